@@ -82,7 +82,7 @@ def gen_list_step(rng, dt, L, tr):
         s = rs()
         n = len(range(*slice(*s).indices(L)))
         k = rng.choice([n, n, n, n + 1, 0, max(n - 1, 0)])
-        return [op, s, [val() for _ in range(k)], rng.choice(['list', 'tuple', 'gen'])]
+        return [op, s, [val() for _ in range(k)], rng.choice(['list', 'list', 'tuple', 'gen', 'Array', 'Array-trailing', 'Array-scaled'])]
     if op == 'del':
         return [op, ri()]
     if op == 'delslice':
@@ -149,8 +149,18 @@ def list_step(ctx, a, dt, m, tr, st, case):
             m[i] = enc(v)
         elif op == 'setslice':
             s, vs, kind = slice(*st[1]), st[2], st[3]
+            if kind.startswith('Array'):
+                # the value is itself an Array of this dtype (its items are what is assigned; its trailing bits are not items)
+                vs = [v for v in vs if enc(v) is not None]
             pv = [P(v) for v in vs]
             arg = pv if kind == 'list' else tuple(pv) if kind == 'tuple' else None
+            if kind == 'Array-scaled' and dt.family in ('uint', 'int') and not dt.struct_code and 2 < dt.n <= 32:   # (the scaling is float arithmetic: exact up to 53 bits)
+                # an Array whose dtype has the same name and length but a scale: its ITEMS (stored value times scale) are assigned
+                vs = [v - v % 2 for v in vs]
+                pv = list(vs)
+                arg = Array(bitstring.Dtype(dt.name, dt.n, scale=2), pv)
+            elif kind.startswith('Array'):
+                arg = Array(dt.spec, pv, trailing_bits='0b1' if (kind == 'Array-trailing' and dt.width > 1) else None)
             act = (lambda: a.__setitem__(s, arg)) if kind != 'gen' else (lambda: a.__setitem__(s, (x for x in pv)))
             ic = 'step1' if st[1][2] in (None, 1) else 'ext'
             ch = [enc(v) for v in vs]
@@ -524,12 +534,23 @@ def op_case(ctx, c):
             verdict(got, exp, 'bitwise', 'len-ok' if len(vbits) == dt.width else 'len-bad')
             if B(a.data) != before:
                 ctx.mismatch(f'C14|bitwise:{opn}|plain|operand-changed', c, '')
+
+            def mask_now():
+                if isinstance(v, str):
+                    return B(bitstring.Bits(v))        # what the same token string means now
+                return v.to01() if hasattr(v, 'to01') else B(v)
+            if mask_now() != vbits:
+                ctx.mismatch(f'C14|bitwise:{opn}|{"many" if len(items) >= 16 else "few"}-items|mask-operand-changed', c,
+                             f'{c["valspec"][0]} mask {vbits} is now {mask_now()[:60]}')
             b = Array(dt.spec, items)
 
             def inplace():
-                x = fi(b, util.build_operand(c['valspec']))
+                x = fi(b, v)                           # the same mask object (or string) a second time
                 return desc(x), x is b
             got2 = call(inplace)
+            if mask_now() != vbits:
+                ctx.mismatch(f'C14|bitwise-inplace:{opn}|{"many" if len(items) >= 16 else "few"}-items|mask-operand-changed', c,
+                             f'{c["valspec"][0]} mask {vbits} is now {mask_now()[:60]}')
             if exp[0] == 'ok':
                 if not (got2[0] == 'ok' and got2[1][1] and A.same_list(got2[1][0][1], exp[1][1])):
                     ctx.mismatch(f'C14|bitwise-inplace:{opn}|len-ok|value-or-identity', c, f'{got2!r:.100}')
@@ -564,7 +585,7 @@ def op_case(ctx, c):
 def gen_op_case(ctx):
     rng = ctx.rng
     dt = rng.choice(NUMERIC if rng.random() < 0.35 else INTS)
-    n = rng.choice([0, 1, 2, 3, 5])
+    n = rng.choice([0, 1, 2, 3, 5, 16, 17, 40])
     items = [dt.rng_value(rng) for _ in range(n)]
     if dt.family == 'float':
         items = [x for x in items if not (math.isnan(x))] or [1.5]
@@ -623,7 +644,55 @@ DIRECTED_OPS = [
 ]
 
 
+# ---- promotion over all dtype pairs, 8-bit and smaller floats included ------------------------------------------------
+PROMO = [('p3binary', 'float'), ('p4binary', 'float'), ('e5m2mxfp', 'float'), ('e4m3mxfp', 'float'), ('e3m2mxfp', 'float'), ('e2m3mxfp', 'float'),
+         ('e2m1mxfp', 'float'), ('e8m0mxfp', 'float'), ('mxint', 'float'), ('bfloat', 'float'), ('float16', 'float'), ('float32', 'float'),
+         ('floatle64', 'float'), ('uint8', 'uint'), ('int4', 'int'), ('uint16', 'uint'), ('int16', 'int'), ('bool', 'uint'), ('uintle16', 'uint'),
+         ('intbe16', 'int'), ('uint4', 'uint'), ('int8', 'int'), ('<h', 'int'), ('>H', 'uint'), ('<e', 'float')]
+
+
+def promo_case(ctx, c):
+    (s1, f1), (s2, f2) = c['t1'], c['t2']
+    with util.options(lsb0=False):
+        one = lambda f, sp: (1.0 if f == 'float' else (True if sp == 'bool' else 1))  # noqa: E731
+        a1, a2 = Array(s1, [one(f1, s1)] * 3), Array(s2, [one(f2, s2)] * 3)
+        d1, d2 = a1.dtype, a2.dtype
+        if d1.name == d2.name:
+            exp = d1 if d1.bitlength > d2.bitlength else d2
+        elif f1 == 'float' and f2 != 'float':
+            exp = d1
+        elif f2 == 'float' and f1 != 'float':
+            exp = d2
+        elif f1 == 'float':
+            exp = d2 if d2.bitlength > d1.bitlength else d1
+        elif f1 == 'int' and f2 != 'int':
+            exp = d1
+        elif f2 == 'int' and f1 != 'int':
+            exp = d2
+        else:
+            exp = d2 if d2.bitlength > d1.bitlength else d1
+        for opname, f in (('mul', lambda: a1 * a2), ('imul', lambda: copy.copy(a1).__imul__(a2))):
+            got = call(f)
+            ctx.op('promotion:' + opname, 'ok' if got[0] == 'ok' else type(got[1]).__name__)
+            ic = f'{f1}x{f2}' + (',tie' if d1.bitlength == d2.bitlength else ',first-longer' if d1.bitlength > d2.bitlength else ',second-longer')
+            if got[0] != 'ok':
+                ctx.mismatch(f'C14|promotion:{opname}|{ic}|unexpected-exc:{type(got[1]).__name__}', c, f'{s1} * {s2}: {got[1]!s:.80}')
+            elif (got[1].dtype.name, got[1].dtype.bitlength) != (exp.name, exp.bitlength):
+                ctx.mismatch(f'C14|promotion:{opname}|{ic}|result-dtype', c, f'{s1} * {s2} -> {got[1].dtype}, documented rules give {exp}')
+            elif [float(x) for x in got[1].tolist()] != [1.0] * 3:
+                ctx.mismatch(f'C14|promotion:{opname}|{ic}|values', c, f'{s1} * {s2} -> {got[1].tolist()!r:.60}')
+            else:
+                ctx.ok(('promotion', opname, s1, s2), True)
+
+
 def run(ctx):
+    i = 0
+    for t1 in PROMO:
+        for t2 in PROMO:
+            i += 1
+            if ctx.mine(i):
+                ctx.run_case(promo_case, {'kind': 'promo', 't1': list(t1), 't2': list(t2)})
+    ctx.exhaustive[f'promotion: every ordered pair of {len(PROMO)} dtypes (incl. every 8-bit-and-smaller float) under * and *='] = True
     if ctx.shard == 0:
         for c in DIRECTED_LIST:
             ctx.run_case(lambda x, k: list_program(x, k), {**c, 'steps': [list(s) for s in c['steps']]})
@@ -649,7 +718,9 @@ def run(ctx):
 
 
 def replay(ctx, case):
-    if 'kind' in case:
+    if case.get('kind') == 'promo':
+        ctx.run_case(promo_case, case)
+    elif 'kind' in case:
         ctx.run_case(op_case, case)
     else:
         ctx.run_case(lambda x, k: list_program(x, k), case)
